@@ -7,6 +7,8 @@ def dispatch (op : String) (args : List Sexp) : String :=
   | "codec.enc" => opCodecEnc args
   | "codec.dec" => opCodecDec args
   | "sock.recv" => opSockRecv args
+  | "seq.hash" => opSeqHash args
+  | "seq.nth" => opSeqNth args
   | "sock.send" => opSockSend args
   | _ => "bad-op"
 
